@@ -272,7 +272,8 @@ FIXED_BREAKDOWN = {
 def check_C01(tier, seed, t0):
     rng = random.Random(2000 + seed)
     descs = P.herm_basic(rng, n_of(tier, 120, 2500), types=types_for(tier), meas=1, nmax=n_of(tier, 40, 120))
-    descs += P.breakdown_descs(rng, n_of(tier, 24, 300), types=types_for(tier), gen=False, meas=1)
+    descs += P.breakdown_descs(rng, n_of(tier, 72, 300), types=types_for(tier), gen=False, meas=1)
+    descs += P.near_descs(rng, classes=("sym", "herm"), types=("d", "l") if tier == "thorough" else ("d",), meas=1)
     models = [("MC_IR.tla", "IR_quick.cfg" if tier == "quick" else "IR_design.cfg", 8)]
     return ir_flow("C01", tier, seed, descs, HERM_NUM, models, COMMON_ASSUME, t0, neg_models=IR_NEG)
 
@@ -280,7 +281,8 @@ def check_C01(tier, seed, t0):
 def check_C02(tier, seed, t0):
     rng = random.Random(3000 + seed)
     descs = P.gen_basic(rng, n_of(tier, 120, 2500), types=types_for(tier), meas=1, nmax=n_of(tier, 36, 100))
-    descs += P.breakdown_descs(rng, n_of(tier, 24, 300), types=types_for(tier), gen=True, meas=1)
+    descs += P.breakdown_descs(rng, n_of(tier, 72, 300), types=types_for(tier), gen=True, meas=1)
+    descs += P.near_descs(rng, classes=("gen",), types=("d", "l") if tier == "thorough" else ("d",), meas=1)
     descs += FIXED_BREAKDOWN["C02"]
     models = [("MC_IR.tla", "IR_quick.cfg" if tier == "quick" else "IR_design.cfg", 8)]
     return ir_flow("C02", tier, seed, descs, GEN_NUM, models, COMMON_ASSUME, t0, neg_models=IR_NEG)
@@ -323,7 +325,8 @@ def check_C07(tier, seed, t0):
     rng = random.Random(4000 + seed)
     descs = P.herm_basic(rng, n_of(tier, 60, 800), types=types_for(tier), meas=2, nmax=n_of(tier, 36, 90))
     descs += P.gen_basic(rng, n_of(tier, 60, 800), types=types_for(tier), meas=2, nmax=n_of(tier, 32, 80), ref=0)
-    descs += P.breakdown_descs(rng, n_of(tier, 40, 400), types=types_for(tier))
+    descs += P.breakdown_descs(rng, n_of(tier, 120, 400), types=types_for(tier))
+    descs += P.near_descs(rng, types=("d", "l") if tier == "thorough" else ("d",))
     descs += P.geig_basic(rng, n_of(tier, 30, 300), types=("d",), meas=2, lgcs=(2, 6))
     descs += FIXED_BREAKDOWN["C07"]
     # start vector in the null space of the operator, B-inner product (fallback path of Arnoldi::init)
